@@ -526,7 +526,7 @@ def _describe(case):
 
 
 SUBCHECKS = {
-    "image": Sub("image", check_pair, strategy=lambda ctx: image_case(), examples={"quick": 1500, "thorough": 22000}, describe=_describe),
-    "nearmiss": Sub("nearmiss", check_pair, strategy=lambda ctx: nearmiss_case(), examples={"quick": 1200, "thorough": 18000}, describe=_describe),
-    "arcs": Sub("arcs", check_pair, strategy=lambda ctx: arc_case(), examples={"quick": 600, "thorough": 9000}, describe=_describe, shrink_s=15.0),
+    "image": Sub("image", check_pair, strategy=lambda ctx: image_case(), examples={"quick": 1500, "thorough": 14000}, describe=_describe),
+    "nearmiss": Sub("nearmiss", check_pair, strategy=lambda ctx: nearmiss_case(), examples={"quick": 1200, "thorough": 12000}, describe=_describe),
+    "arcs": Sub("arcs", check_pair, strategy=lambda ctx: arc_case(), examples={"quick": 600, "thorough": 6000}, describe=_describe, shrink_s=15.0),
 }
